@@ -409,6 +409,36 @@ def first_diff(a, b):
     return {"len_a": len(a), "len_b": len(b)}
 
 
+def hook_identifiers():
+    """identifiers of objects that use the exclusion hook (`__exclude_identifier_fields__`): the grid-search wrapper of a
+    search and a user class; the same in every process, blind to the excluded field only"""
+    import vlib
+    out = {}
+    for k, steps in (("grid4", 4), ("grid7", 7)):
+        out[k] = ident(af.SearchGridSearch(search=af.DynestyStatic(nlive=53), number_of_steps=steps, number_of_cores=1))
+    out["grid4-cores"] = ident(af.SearchGridSearch(search=af.DynestyStatic(nlive=53), number_of_steps=4, number_of_cores=3))
+    out["excl"] = ident(vlib.Excl())
+    out["excl-skip"] = ident(vlib.Excl(skip=9.0))
+    out["excl-eta"] = ident(vlib.Excl(eta=9.0))
+    out["excl-model"] = ident(af.Collection(e=vlib.Excl(alpha=2.5), g=af.Model(vlib.P2)))
+    return out
+
+
+def hook_probe(ctx, remote=None, seed=None):
+    here = hook_identifiers()
+    case = {"label": "exclusion-hook"}
+    ctx.hit("exclusion-hook-probe")
+    if remote is not None:
+        if here != remote:
+            ctx.fail("C07-process-dependent", "identifier of an object using __exclude_identifier_fields__ (grid search wrapper / user class) "
+                     "differs between processes", case, {"here": here, "there": remote, "hashseed": seed})
+        return
+    if here["grid4"] != here["grid4-cores"] or here["excl"] != here["excl-skip"]:
+        ctx.fail("C07-excluded-field-identifies", "a field de-selected by __exclude_identifier_fields__ changes the identifier", case, here)
+    if here["grid4"] == here["grid7"] or here["excl"] == here["excl-eta"]:
+        ctx.fail("C07-blind", "an identifying field of an object using __exclude_identifier_fields__ does not change the identifier", case, here)
+
+
 CHILD = r"""
 import sys, json, warnings
 warnings.filterwarnings("ignore")
@@ -425,6 +455,7 @@ for c in spec:
     s = c07.mk_search(c["search"])
     out.append(c07.fit_id(s, m, c["tag"]))
 print("RESULT" + json.dumps(out))
+print("HOOKS" + json.dumps(c07.hook_identifiers()))
 """
 
 
@@ -445,6 +476,9 @@ def cross_process(ctx, cases):
             ctx.notes["cross_process_error"] = (p.stderr or "")[-400:]
             return
         remote = json.loads(line[6:])
+        hooks = next((l for l in p.stdout.splitlines() if l.startswith("HOOKS")), None)
+        if hooks is not None:
+            hook_probe(ctx, json.loads(hooks[5:]), seed)
         ctx.hit("cross-process-compared", len(remote))
         for c, a, b in zip(cases, local, remote):
             if a != b:
@@ -469,6 +503,7 @@ def run(ctx):
         one_case(ctx, prog, sspec, tag)
         if len(kept) < ctx.n(12, 60):
             kept.append({"program": prog, "search": sspec, "tag": tag})
+    hook_probe(ctx)
     cross_process(ctx, kept)
     caller_names(ctx)
     pinned_search_fields(ctx)
@@ -601,6 +636,9 @@ def caller_names(ctx):
 
 def replay(ctx, payload):
     case = payload.get("case") or payload.get("disagreements", [{}])[0].get("case")
+    if case.get("label") == "exclusion-hook":
+        hook_probe(ctx)
+        return cross_process(ctx, [])
     if isinstance(case.get("program"), list):
         one_case(ctx, case["program"], case.get("search"), case.get("tag"), label="replay")
     elif case.get("label") == "same-named-classes":
